@@ -1,6 +1,8 @@
 \* C29 PoSA: family pixie, chain configuration F (MCPoSA!SetsF), mode gen
 SPECIFICATION Spec
 CONSTANTS Family = "pixie"
+          Epoch = 0
+          CliqueFixed = FALSE
           Sets <- SetsF
           GenesisSigner = "c"
           G0 = 200
